@@ -94,17 +94,32 @@ def gen_triple(rng, tier="quick"):
             es.append([prev, nm])
             prev = nm
     desc = {"units": us, "dataPath": es}
+    if rng.random() < 0.1:
+        # a capability whose name looks like a wildcard / a list elsewhere: a plain name here
+        allc = sorted({c for u in us for c in u["capabilities"]})
+        old, new = rng.choice(allc), rng.choice(["any", "*", "all", "ALU,MEM", "a|b", "none"])
+        if new.lower() not in {c.lower() for c in allc}:
+            for u in us:
+                u["capabilities"] = [new if c == old else c for c in u["capabilities"]]
+                if "memoryAccess" in u:
+                    u["memoryAccess"] = [new if c == old else c for c in u["memoryAccess"]]
     in_names = {u["name"] for u in us} - {e[1] for e in es}
     offered = sorted({c for u in us if u["name"] in in_names for c in u["capabilities"]})
     isa = []
     for c in offered:
         for j in range(rng.randint(1, 2)):
-            isa.append([("op%s%d" % (c[:2], j)), c])
+            isa.append([("op%s%d" % ("".join(ch for ch in c[:2] if ch.isalnum()) or "x", j)), c])
+    if len(offered) >= 2 and rng.random() < 0.3:
+        # a mnemonic spelled like an offered capability and mapped to ANOTHER capability, declared before the instructions
+        # that use that capability (mnemonics and capabilities are separate name spaces; seeded change C13-11)
+        a, b = rng.sample(offered, 2)
+        if a.strip() and all(m.lower() != a.lower() for m, _ in isa):
+            isa.insert(0, [a, b])
     if rng.random() < 0.5:
         rng.shuffle(isa)
     # register spellings differ in case between triples of one batch (r1 / R1, Rg1 / rG1): state leaking from one call
     # into the next (a registry that outlives its call) then shows as an order-dependent result
-    style = rng.choice(["r%d", "R%d", "Rg%d", "rG%d"])
+    style = rng.choice(["r%d", "R%d", "Rg%d", "rG%d", "r%d", "R%d", "#%d", "0x%d", "r%d:", ";r%d", "//%d", "(r%d)", "*%d"])
     regs = [style % i for i in range(rng.randint(2, 4))]
     lines = []
     n = rng.randint(0, 10 if tier == "quick" else 16)
@@ -559,7 +574,7 @@ def model_agrees(model, real):
 # --------------------------------------------------------------------------------------------------
 
 def cases(tier: str) -> list:
-    return list(range(64 if tier == "quick" else 640))
+    return ["marathon"] + list(range(64 if tier == "quick" else 640))
 
 
 def evaluate(x, do_cli=True, do_cli_err=True) -> dict:
@@ -653,7 +668,23 @@ def evaluate(x, do_cli=True, do_cli_err=True) -> dict:
     return {"props": props, "base": c20_view(base), "changed": changed, "k_why": k_why, "cli": cli, "x2": x2}
 
 
+def marathon_triple(n):
+    """a one-unit processor and n independent instructions: the printed table has n columns (a default limit on the
+    number of printed / simulated cycles shows only on long runs)"""
+    return {"desc": {"units": [{"name": "core", "width": 1, "capabilities": ["ALU"], "readLock": True, "writeLock": True}], "dataPath": []},
+            "isa": [["add", "ALU"]], "lines": ["ADD R%d" % (i % 5) + ", R9" for i in range(n)], "seed": "marathon"}
+
+
 def run_case(case, tier="quick") -> dict:
+    if case == "marathon":
+        core.install_repo()
+        x = marathon_triple(1150)
+        o = evaluate(x, do_cli=True, do_cli_err=False)
+        rec = {"case": case, "family": "marathon", "digest": "marathon-1150", "tags": ["marathon"], "props": {"C16": o["props"]["C16"]}}
+        if o["props"]["C16"]["o"] is not None or not o["props"]["C16"]["k"]:
+            rec["input"] = {"marathon": 1150}
+            rec["impl"] = {"cli_rc": (o["cli"] or {}).get("rc"), "cli_columns": len(((o["cli"] or {}).get("rows") or [[]])[0])}
+        return {"multi": [rec]}
     """one case id = a small batch of triples (so that fresh-interpreter runs are amortised)"""
     core.install_repo()
     rng = core.case_rng(NAME, case)
@@ -716,6 +747,8 @@ def run_case(case, tier="quick") -> dict:
 
 
 def replay(prop: str, inp: dict) -> dict:
+    if "marathon" in inp:
+        inp = marathon_triple(inp["marathon"])
     o = evaluate(inp, do_cli=True)
     rec = o["props"].get(prop, {"app": False, "nontrivial": False, "k": True, "o": None})
     if prop == "C20" and rec["o"] is None:
